@@ -7,7 +7,7 @@
    [dropped], [droptaken] (what Drop activations took out of the word), [active] (Call begun, not ended). *)
 From Coq Require Import List Arith Bool Permutation Sorted.
 Import ListNotations.
-From YV Require Import model.Strand proofs.StrandProofs.
+From YV Require Import model.Strand model.StrandStack proofs.StrandProofs proofs.StrandStackProofs.
 
 (* ---- (c) never two at once -------------------------------------------------------------------------- *)
 
@@ -119,9 +119,9 @@ Proof. intros n tr s H. exact (progress s (inv_reach n tr s H)). Qed.
 Print Assumptions c07_progress.
 
 (* The strand's own work is bounded by the number of jobs: in any run, the events other than the submitters' loads and
-   failed CASes number at most 20 per pushed job (so the activations cannot spin or resubmit forever). *)
+   failed CASes number at most 18 per pushed job (so the activations cannot spin or resubmit forever). *)
 Theorem c07_bounded_work :
-  forall n tr s, run (init n) tr = Some s -> own_steps tr + potential s <= 20 * length (pushed s).
+  forall n tr s, run (init n) tr = Some s -> own_steps tr + potential s <= 18 * length (pushed s).
 Proof. exact bounded_work. Qed.
 Print Assumptions c07_bounded_work.
 
